@@ -4,7 +4,7 @@ import z3
 from .ty import Ty, INT, REAL, BOOL, NONE, STR, Ref, List, Seq, Opt, Tuple, sort_of, elem_key, parse_ty
 from .state import SV, PyVal, State, Snapshot, mk_int, mk_real, mk_bool, mk_none, mk_str, mk_tuple, mk_seq
 from .ctx import Unsupported, RaiseSig, PathEnd, ReturnSig, BreakSig, ContinueSig, exc_matches
-from .expr import is_sv
+from .expr import is_sv, _ix, rd
 
 MAX_UNROLL = 8
 
@@ -105,8 +105,28 @@ class StmtMixin:
             raise Unsupported("raise expression")
         raise RaiseSig(name, node.lineno)
 
+    def target_type(self, t, st):
+        if isinstance(t, ast.Name):
+            return self.contract.locals.get(t.id)
+        try:
+            if isinstance(t, ast.Attribute):
+                obj = self.ev(t.value, st)
+                f = self.reg.field(obj.ty.arg, t.attr) if is_sv(obj) and obj.ty.kind == "ref" else None
+                return (f[1].arg if f[1].kind == "opt" else f[1]) if f else None
+            if isinstance(t, ast.Subscript) and isinstance(t.slice, ast.Constant) and isinstance(t.slice.value, str):
+                obj = self.ev(t.value, st)
+                f = self.reg.field(obj.ty.arg, t.slice.value) if is_sv(obj) and obj.ty.kind == "ref" else None
+                return (f[1].arg if f[1].kind == "opt" else f[1]) if f else None
+        except Unsupported:
+            return None
+        return None
+
     def st_Assign(self, node, st):
-        v = self.ev(node.value, st)
+        self.pending_list_type = self.target_type(node.targets[0], st)
+        try:
+            v = self.ev(node.value, st)
+        finally:
+            self.pending_list_type = None
         for t in node.targets:
             self.assign(t, v, st)
 
@@ -185,7 +205,7 @@ class StmtMixin:
                 ety = base.ty.arg
                 ln = self.list_len(base, st)
                 idx = self.norm_index(target.slice, ln, st, False)
-                arr = self.content_arr(ety, st)[base.t]
+                arr = rd(self.content_arr(ety, st), base.t)
                 val = self.coerce(v, ety, st)
                 self.list_set_content(base, z3.Store(arr, idx, val.t), None, st)
                 return
@@ -221,7 +241,7 @@ class StmtMixin:
                 if not bound:
                     self.ctx.oblige(st, "safe:unpack", ln == len(target.elts), text="unpack length")
                 for i, t in enumerate(target.elts):
-                    self.bind_target(t, SV(e, arr[off + i]), st, bound)
+                    self.bind_target(t, SV(e, arr[_ix(z3.IntVal(i), off)]), st, bound)
                 return
         raise Unsupported("binding target")
 
@@ -314,7 +334,7 @@ class StmtMixin:
             e, arr, off, ln = self.seq_of(it, st)
 
             def el(k, s):
-                v = SV(e, arr[off + k])
+                v = SV(e, rd(arr, _ix(k, off)))
                 if e.kind in ("ref", "list"):
                     s.assume(z3.And(v.t >= 1, v.t < s.alloc()))
                 return v
@@ -349,8 +369,11 @@ class StmtMixin:
             raise Unsupported("invariant loop over a tuple")
         kname = "_k%d" % n
         st.loops[n] = st.snapshot()
-        if is_sv(it):
-            st.env["_it%d" % n] = it
+        itv = it
+        while isinstance(itv, PyVal) and itv.kind == "enumerate":
+            itv = itv.inner
+        if is_sv(itv):
+            st.env["_it%d" % n] = itv
         st.env[kname] = mk_int(0)
         st.cur_loop.append(n)
         try:
@@ -360,7 +383,7 @@ class StmtMixin:
             k = self.ctx.fresh(kname, z3.IntSort())
             st.env[kname] = mk_int(k)
             st.assume(k >= 0)
-            fixed_len = view["live"] is None or ("heap", "$len") not in written
+            fixed_len = view["live"] is None or ("heap", self.len_key(view["live"].ty.arg)) not in written
             if fixed_len:
                 st.assume(k <= view["len"](st))
             self.assume_invariants(n, invs, st)
